@@ -3,9 +3,14 @@
 Copies a confirmed sub-agent change into /verif/seeded/<Cnn>-<X>/ with a meta.json."""
 import json, os, shutil, sys, re
 c, x, pkg, pat, caught = sys.argv[1:6]
-flags = sys.argv[6:] 
-src = "/tmp/wt/%s-out" % c
-dst = "/verif/seeded/%s-%s" % (c, x)
+flags = [f for f in sys.argv[6:] if not f.startswith("--")]
+root = "/tmp/wt"
+label = x
+for f in sys.argv[6:]:
+    if f.startswith("--root="): root = f[7:]
+    if f.startswith("--label="): label = f[8:]
+src = "%s/%s-out" % (root, c)
+dst = "/verif/seeded/%s-%s" % (c, label)
 os.makedirs(dst, exist_ok=True)
 shutil.copy(src + "/%s.diff" % x, dst + "/patch.diff")
 shutil.copy(src + "/%s_demo_test.go" % x, dst + "/demo_test.go")
